@@ -6894,6 +6894,26 @@ func (c *linkerContext) generateIsolatedHash(chunk *chunkInfo, channel chan []by
 		hashWriteLengthPrefixed(hash, chunk.externalLegalComments)
 	}
 
+	// The chunk may end with a comment that links to the legal comments file
+	// and/or a comment that links to (or embeds) the source map, depending on
+	// the legal comments mode and the source map mode. These comments are added
+	// after the hash has been computed, so the modes that add them must be part
+	// of the hash too. Otherwise two builds that only differ in these settings
+	// could emit chunks with the same name but with different contents.
+	if len(chunk.externalLegalComments) > 0 && c.options.LegalComments == config.LegalCommentsLinkedWithComment {
+		hash.Write([]byte{'C'})
+	}
+	if chunk.outputSourceMap.HasContent() {
+		switch c.options.SourceMap {
+		case config.SourceMapLinkedWithComment:
+			hash.Write([]byte{'L'})
+		case config.SourceMapInline:
+			hash.Write([]byte{'I'})
+		case config.SourceMapInlineAndExternal:
+			hash.Write([]byte{'B'})
+		}
+	}
+
 	// Also include the source map data in the hash. The source map is named the
 	// same name as the chunk name for ease of discovery. So we want the hash to
 	// change if the source map data changes even if the chunk data doesn't change.
